@@ -125,8 +125,10 @@ func init() {
 		Runs: []Run{
 			{Pkg: "fasthttp", Func: "vhC05ResponseSetters", Quick: map[string]int{"nameLen": 2, "valLen": 2}, Thorough: map[string]int{"nameLen": 2, "valLen": 3}},
 			{Pkg: "fasthttp", Func: "vhC05RequestSetters", Quick: map[string]int{"nameLen": 2, "valLen": 2}, Thorough: map[string]int{"nameLen": 2, "valLen": 3}},
+			{Pkg: "fasthttpproxy", Func: "vhC05ProxyConnect", Quick: map[string]int{"addrLen": 2}, Thorough: map[string]int{"addrLen": 2}},
 		},
 		Assume: []string{
+			"proxy half (vhC05ProxyConnect, package fasthttpproxy): httpProxyDial with a target of ≤ addrLen arbitrary bytes (between \"h\" and \":80\"), with and without proxy credentials, over a recording connection that answers 200: the CONNECT request has CR / LF only as the CRLF ends of its 3 / 4 lines, and a target containing CR or LF is refused before anything is written",
 			"one setter call with arbitrary bytes (name ≤ nameLen, value ≤ valLen) on a fresh header, serialised with Header(); setters covered: Set/Add/SetBytesKV (ordinary and special names), SetContentType, SetServer, SetStatusMessage, SetContentEncoding, SetMethod, SetRequestURI, SetHost, SetUserAgent, SetProtocol, SetReferer, SetCookie",
 			"trailer names, the proxy CONNECT target and Request/Response-level URI setters are outside this check; the default Date header is switched off (noDefaultDate)",
 		},
@@ -405,7 +407,7 @@ func init() {
 		Units: clientUnits,
 		Runs: []Run{
 			{Pkg: "fasthttp", Func: "vhC04Sequential", Quick: map[string]int{"calls": 2}, Thorough: map[string]int{"calls": 3}, PathCap: 1500000},
-			{Pkg: "fasthttp", Func: "vhC04Pipeline", Quick: map[string]int{"calls": 3}, Thorough: map[string]int{"calls": 4}, NoNative: true},
+			{Pkg: "fasthttp", Func: "vhC04Pipeline", Quick: map[string]int{"calls": 4}, Thorough: map[string]int{"calls": 5}, NoNative: true},
 			{Pkg: "fasthttp", Func: "vhC04OverlappingStreams"},
 			{Pkg: "fasthttp", Func: "vhC04PipelineAfterTimeout", NoNative: true},
 		},
@@ -492,8 +494,10 @@ func init() {
 		Units: []string{"fasthttp.TimeoutWithCodeHandler", "fasthttp.(*RequestCtx).TimeoutErrorWithCode", "fasthttp.(*RequestCtx).TimeoutErrorWithResponse", "fasthttp.(*Server).ServeConn", "fasthttp.(*Server).serveConnCounted", "fasthttp.(*Server).acquireCtx", "fasthttp.(*Server).releaseCtx", "fasthttp.initTimer", "fasthttp.stopTimer", "fasthttp.writeResponse"},
 		Runs: []Run{
 			{Pkg: "fasthttp", Func: "vhC16LateHandler", NoNative: true},
+			{Pkg: "fasthttp", Func: "vhC16TimeoutErrorWithResponse", NoNative: true},
 		},
 		Assume: []string{
+			"handed-over responses (vhC16TimeoutErrorWithResponse): the handler passes its own Response to TimeoutErrorWithResponse and then rewrites body (same or greater length), a header and the status of that object, at once or 20 ms later: the client receives what was handed over; two symbolic bytes in body and header",
 			"the real TimeoutWithCodeHandler (100 ms) and serve loop on a scripted connection, engine scheduler with virtual time: the wrapped handler of request 1 wakes up at 150 / 230 / 400 ms and again 20 / 200 ms later and rewrites status, headers (two symbolic bytes), body, Connection and the request URI of its RequestCtx each time; request 2 arrives at once or at 220 ms and its handler takes 0 or 50 ms, so the late writes fall before, inside and after the handling of request 2; ReduceMemoryUsage on/off; Concurrency default or 1 (then request 2 must be answered 429 exactly when the abandoned handler still holds the only slot)",
 			"interleaving happens at the sleep points chosen above (cooperative scheduler), not between arbitrary instructions: data races of a late handler with the serve loop are C37's subject and outside; handlers that write to ctx.Conn() directly are outside; sampled paths are not re-run natively (real time cannot be forced onto the virtual timeline)",
 		},
